@@ -49,8 +49,6 @@ SmdText == "{\"smd\":1}"
 InOf(ev) == [app |-> ev.app, smd |-> ev.smd, http |-> ev.http, ct |-> ev.ct, bk |-> ev.bk, method |-> ev.method, params |-> ev.params,
              id |-> ev.id, mname |-> ev.mname, reg |-> ev.reg, script |-> ev.script]
 
-HasOp(sc, S) == \E j \in 1..Len(sc) : sc[j] \in S
-ScriptClass(sc) == IF HasOp(sc, {"rel"}) THEN "released" ELSE IF HasOp(sc, {"Tc", "Tb", "Ts"}) THEN "throw" ELSE "handler"
 Who(in) == IF Notif(in) THEN "notification" ELSE "call"
 
 (* The failing input class of a flagged handler program: the operations the design executes, one letter each           *)
